@@ -277,29 +277,46 @@ pub(crate) fn after_load(loc: u32, val: u64, o: Ordering, kind: Kind) {
         let found = th.readset.iter().rposition(|r| r.loc == loc && r.ver == lver);
         match *spin_mode {
             SpinMode::Fast => {
-                let spin = match found {
-                    Some(i) => th.readset[i..].iter().all(|r| locs[r.loc as usize].ver == r.ver),
-                    None => false,
-                };
+                // detection as in the conservative mode (two identical, still current passes of a read-only
+                // cycle, so that a straight-line re-read is never mistaken for a wait); on detection the
+                // history is reset to a canonical "blocked in this wait" value so that wait iterations and
+                // wake-ups that change nothing create no new states
+                let mut spin = false;
+                if let Some(j) = found {
+                    let m = th.readset.len();
+                    let k = m - j;
+                    if j >= k && th.readset[j..].iter().all(|r| locs[r.loc as usize].ver == r.ver) {
+                        spin = (0..k).all(|d| {
+                            let a = &th.readset[j - k + d];
+                            let b = &th.readset[j + d];
+                            a.loc == b.loc && a.val == b.val && a.ver == b.ver
+                        });
+                    }
+                }
                 if spin && !*no_block {
-                    let i = found.unwrap();
-                    th.waitset = th.readset[i..].iter().map(|r| (r.loc, r.ver)).collect();
+                    let j = found.unwrap();
+                    let k = th.readset.len() - j;
+                    th.waitset = th.readset[j..].iter().map(|r| (r.loc, r.ver)).collect();
                     let entry = match th.wait_entry {
                         Some(h) => h,
                         None => {
-                            let h = th.readset[i].hist_before;
+                            let h = th.readset[j - k].hist_before;
                             th.wait_entry = Some(h);
                             h
                         }
                     };
                     th.hist = mix(entry, BLOCKED);
-                    th.readset.truncate(i + 1);
+                    th.readset.clear();
+                    th.readset.push(ReadRec { loc, val, ver: lver, hist_before: entry });
                     th.st = St::Spin;
                     th.ever_waited = true;
                 } else {
                     let hb = th.hist;
                     th.hist = mix(mix(th.hist, ((loc as u64) << 40) ^ val.wrapping_mul(31) ^ 0x10ad), wid);
                     th.readset.push(ReadRec { loc, val, ver: lver, hist_before: hb });
+                    if th.readset.len() > 4096 {
+                        th.readset.drain(..2048);
+                    }
                 }
             }
             SpinMode::Conservative => {
